@@ -174,7 +174,10 @@ Definition val_pr (b : blk) : bool :=
   | _ => false
   end.
 
-(* opstree.IsValid + base.IsValidOperationsTreeWithManifest *)
+(* opstree.IsValid + base.IsValidOperationsTreeWithManifest.
+   Order as in the Go switch: first `tr.Len() != len(ops)` (error), only then `len(ops) < 1` (nothing more to
+   compare): an empty operations list against a non-empty tree is rejected; the root is compared only when
+   there is at least one operation.  Same shape for the states below. *)
 Definition ops_consistent (b : blk) : bool :=
   let tr := item_get empty_tree (b_opstree b) in
   let ops := item_get [] (b_ops b) in
